@@ -101,7 +101,7 @@ def mutSpecs : List MutSpec := [
   ⟨"Glyph", "_set_note", [.glyphAttrs], [.glyphAttrs], .same⟩,
   ⟨"Glyph", "_set_unicodes", [.glyphAttrs], [.glyphAttrs], .same⟩,
   ⟨"Glyph", "_set_dirty", [], [], .none⟩,
-  ⟨"Glyph", "clearImage", [], [], .none⟩,
+  ⟨"Glyph", "clearImage", [], [], .same⟩,
   ⟨"Glyph", "copyDataFromGlyph", [.glyphAttrs], [], .none⟩,
   ⟨"Glyph", "decomposeComponent", [.glyphAttrs], [], .none⟩,
   ⟨"Glyph", "decomposeAllComponents", [.glyphAttrs], [], .same⟩,
